@@ -41,6 +41,10 @@ def numDecimals (x : Rat) : Nat :=
 def cleanerRangeAuto (start end_ h : Rat) : List Rat :=
   Region.cleanerRangeAll start end_ h (numDecimals start) (numDecimals h)
 
+/-- HISTORICAL: `cleaner_range` before fix D49 -/
+def cleanerRangeAutoOld (start end_ h : Rat) : List Rat :=
+  Region.cleanerRangeAllOld start end_ h (numDecimals start) (numDecimals h)
+
 /-- the three `num_decimals` values `_build_bitmask_vec` causes to be computed (regions.py:775-776) -/
 def decsOf (origins : List (Rat × Rat)) (dh : Rat) : Nat × Nat × Nat :=
   (numDecimals (Region.minL (origins.map (·.1))), numDecimals (Region.minL (origins.map (·.2))), numDecimals dh)
